@@ -239,6 +239,12 @@ func (e *c10Env) exec(op c10Op) *s3x.Resp {
 	case "api-del":
 		_, err := st.Backend.DeleteObject(op.B, op.Key)
 		return apiResp(err)
+	case "reopen":
+		// a new backend instance over the same storage (persistent configurations only)
+		if err := st.Reopen(); err != nil {
+			return &s3x.Resp{Status: 500, Body: []byte("reopen: " + err.Error())}
+		}
+		return &s3x.Resp{Status: 200}
 	case "api-mkbucket":
 		return apiResp(st.Backend.CreateBucket(op.B))
 	case "api-rmbucket":
@@ -653,6 +659,27 @@ func c10Run(t *testing.T, c *evid.Collector) {
 					record("framing", cs, ds, acc, "sibling-keys")
 				}
 			}
+		}
+	}
+	// ---- a new backend instance over the same storage tidies up nothing that is an object: keys
+	// spelled like the files backends make for themselves survive a restart followed by a read of
+	// another key
+	for _, k := range kinds {
+		persistent := false
+		for _, pk := range backends.Persistent {
+			persistent = persistent || pk == k
+		}
+		if !persistent {
+			continue
+		}
+		for _, victim := range []string{".modtime-resolution-notes.txt", ".modtime-resolution-1", ".gofakes3-modtime-resolution", ".gofakes3-put-123", ".upload-123", "upload-123", "d/.modtime-resolution-x", ".tmp", "tmp-1", "a.lock"} {
+			n++
+			if n%evid.Shards() != evid.Shard() {
+				continue
+			}
+			cs := c10Case{Backend: k, Ops: []c10Op{{K: "put", B: "bk0", Key: victim, Body: "an object, not a leftover"}, {K: "reopen", B: "bk0"}, {K: "get", B: "bk0", Key: "a"}, {K: "put", B: "bk0", Key: "new", Body: "n"}, {K: "reopen", B: "bk0"}}}
+			ds, acc := c10Exec(cs)
+			record("framing", cs, ds, acc, "restart-keeps-internal-looking-keys")
 		}
 	}
 	// ---- hostile bucket names: nothing addressed to them may touch bk0 / bk1
